@@ -397,7 +397,15 @@ def generate():
                   "def f(self, path):\n"
                   "    dirname = os.path.dirname(path)\n"
                   "    os.makedirs(dirname, exist_ok=True)\n", "_create_dirs")
-        body += "def makedirsExistOk : Bool := true\n\n"
+        # the path the sink remembers (`_file_path`, later handed to rename / compression / remove) is ABSOLUTE:
+        # it must not depend on the working directory at the time the file is closed
+        same_body(find_func(cls, "_create_path"), cls, tree,
+                  "def f(self):\n"
+                  "    path = self._path.format_map({'time': FileDateFormatter()})\n"
+                  "    return os.path.abspath(path)\n", "_create_path")
+        body += "def makedirsExistOk : Bool := true\n"
+        body += "/-- `_create_path` returns `os.path.abspath(...)`: the remembered path is independent of the cwd -/\n"
+        body += "def createPathAbsolute : Bool := true\n\n"
 
         f = norm_func(find_func(cls, "_close_file"), cls, tree)
         cl = Alpha(_local_names(f), {"file"})
